@@ -18,7 +18,7 @@ import itertools, random
 
 SIZE_MAX = 2**64 - 1
 ESIZES = [1, 2, 3, 8, 17]
-FACTORS = ["0.5", "1", "1.1", "1.5", "2", "3"]
+FACTORS = ["0.5", "1", "1.1", "1.25", "1.5", "2", "3"]
 PREDS = ["even", "mod3", "all", "none"]
 
 
@@ -363,7 +363,9 @@ def sparsify(ops, rng):
             out.append("observe")
         out.append(op)
         gap -= 1
-        if gap <= 0 and i != last_destroy:
+        # never inside a run of appends: the runner's growth hook counts uninterrupted runs
+        in_run = op.startswith("add") and i + 1 < len(body) and body[i + 1].startswith("add")
+        if gap <= 0 and i != last_destroy and not in_run:
             out.append("observe")
             gap = rng.randint(5, 15)
     return out
@@ -563,7 +565,7 @@ class ArraySizedGen:
         for cap in (1, 2, 3, 4):
             for ex in FACTORS:
                 for dl in (1, 17):
-                    out.append([f"new esize={dl} cap={cap} exp={ex}"] + [f"add {i}" for i in range(40)] +
+                    out.append([f"new esize={dl} cap={cap} exp={ex}"] + [f"add {i}" for i in range(80 if dl == 1 else 64)] +
                                ["remove_all", "trim_capacity", "add 1", "add 2", "trim_capacity", "destroy"])
         return out
 
@@ -644,6 +646,19 @@ class ArraySizedGen:
         ex = rng.choice(FACTORS)
         p_default = {None: 0.04, "reject": 0.0}.get(focus, 0.1)
         h = Hist(rng, dl, cap, ex, make_pool(rng, dl), default=(rng.random() < p_default))
+        if focus == "growth" and ex in ("1.1", "1.25", "1.5") and not h.ops[0].startswith("new_default") and rng.random() < 0.85:
+            sh = h.sh[0]
+            for _ in range(rng.randint(64, 200 if dl <= 3 else 96)):
+                v = h.val()
+                if sh.xs and rng.random() < 0.15:
+                    i = rng.randrange(len(sh.xs) + 1)
+                    h.ops.append(f"add_at {v} {i}")
+                    sh.xs.insert(i, sh.norm(v))
+                else:
+                    h.ops.append(f"add {v}")
+                    sh.xs.append(sh.norm(v))
+                if rng.random() < 0.05:
+                    h.ops.append(rng.choice(["capacity", "size", f"get_at {rng.randrange(len(sh.xs))}"]))
         if focus in ("derived", "all") and rng.random() < (0.25 if focus == "derived" else 0.12):
             # early in the history: destroy + re-create at the same slot on the other allocator triple
             first_default = h.ops[0].startswith("new_default")
@@ -659,6 +674,12 @@ class ArraySizedGen:
         if focus == "growth":
             w = {"add": 14, "add_at": 3}
             length = rng.randint(20, 120 if dl <= 3 else 50)
+            if rng.random() < 0.6:
+                # a long uninterrupted run of appends with a small factor (1.1 / 1.25 / 1.5: many growth steps,
+                # the capacity + 1 fallback at small capacities), only observers in between: this is what the
+                # runner's ledger-based re-allocation bound (growth hook) looks at
+                ex = rng.choice(["1.1", "1.25", "1.5"])
+                cap = rng.choice([1, 1, 2, 3, 4])
         elif focus == "reject":
             w = {"add": 2}
         elif focus == "fault":
